@@ -210,6 +210,67 @@ where
     }
 }
 
+#[cfg(feature = "async")]
+impl<B, H> Prover for GenProver<B, H>
+where
+    B: StarkField + ExtensibleField<2> + ExtensibleField<3> + 'static,
+    H: ElementHasher<BaseField = B> + Sync + Send,
+{
+    type BaseField = B;
+    type Air = GenAir<B>;
+    type Trace = GenTrace<B>;
+    type HashFn = H;
+    type VC = MerkleTree<H>;
+    type RandomCoin = RecordingCoin<H>;
+    type TraceLde<E: FieldElement<BaseField = B>> = DefaultTraceLde<E, H, MerkleTree<H>>;
+    type ConstraintCommitment<E: FieldElement<BaseField = B>> = DefaultConstraintCommitment<E, H, MerkleTree<H>>;
+    type ConstraintEvaluator<'a, E: FieldElement<BaseField = B>> = DefaultConstraintEvaluator<'a, GenAir<B>, E>;
+
+    fn get_pub_inputs(&self, _trace: &GenTrace<B>) -> GenInputs<B> {
+        self.inputs.clone()
+    }
+    fn options(&self) -> &ProofOptions {
+        &self.options
+    }
+    async fn new_trace_lde<E: FieldElement<BaseField = B>>(
+        &self,
+        trace_info: &TraceInfo,
+        main_trace: &ColMatrix<B>,
+        domain: &StarkDomain<B>,
+        partition_option: PartitionOptions,
+    ) -> (Self::TraceLde<E>, TracePolyTable<E>) {
+        crate::executor::yield_points().await;
+        DefaultTraceLde::new(trace_info, main_trace, domain, partition_option)
+    }
+    async fn new_evaluator<'a, E: FieldElement<BaseField = B>>(
+        &self,
+        air: &'a GenAir<B>,
+        aux_rand_elements: Option<AuxRandElements<E>>,
+        composition_coefficients: ConstraintCompositionCoefficients<E>,
+    ) -> Self::ConstraintEvaluator<'a, E> {
+        crate::executor::yield_points().await;
+        DefaultConstraintEvaluator::new(air, aux_rand_elements, composition_coefficients)
+    }
+    async fn build_constraint_commitment<E: FieldElement<BaseField = B>>(
+        &self,
+        composition_poly_trace: CompositionPolyTrace<E>,
+        num_constraint_composition_columns: usize,
+        domain: &StarkDomain<B>,
+        partition_options: PartitionOptions,
+    ) -> (Self::ConstraintCommitment<E>, CompositionPoly<E>) {
+        crate::executor::yield_points().await;
+        DefaultConstraintCommitment::new(composition_poly_trace, num_constraint_composition_columns, domain, partition_options)
+    }
+    async fn build_aux_trace<E: FieldElement<BaseField = B>>(
+        &self,
+        main_trace: &GenTrace<B>,
+        aux_rand_elements: &AuxRandElements<E>,
+    ) -> ColMatrix<E> {
+        crate::executor::yield_points().await;
+        self.aux_trace_impl(main_trace, aux_rand_elements)
+    }
+}
+
 impl<B: StarkField, H: ElementHasher<BaseField = B>> GenProver<B, H> {
     pub fn aux_trace_impl<E: FieldElement<BaseField = B>>(
         &self,
